@@ -193,3 +193,6 @@ pub fn cond_sides(i: usize) -> (Vec<Sym>, Vec<Sym>) {
     ST.with(|s| { let s = s.borrow(); let c = &s.conds[i]; (c.1.iter().map(|e| e.0).collect(), c.1.iter().map(|e| e.1).collect()) })
 }
 pub fn cond_taken(i: usize) -> bool { ST.with(|s| { let s = s.borrow(); i < s.conds.len() && s.conds[i].2 }) }
+pub trait IsZeroSym { fn zero_eqs(&self) -> Vec<(Sym, Sym)>; }
+impl IsZeroSym for Sym { fn zero_eqs(&self) -> Vec<(Sym, Sym)> { vec![(*self, fzero())] } }
+pub fn sym_is_zero<T: IsZeroSym>(x: &T) -> bool { decide("is_zero", x.zero_eqs()) }
